@@ -143,6 +143,18 @@ func genArgs(d *Def, inFile string) []string {
 	if strings.Contains(d.Opts, "c") {
 		args = append(args, "-caseInsensitive")
 	}
+	if strings.Contains(d.Opts, "J") {
+		args = append(args, "-json=false")
+	}
+	if strings.Contains(d.Opts, "Y") {
+		args = append(args, "-yaml=false")
+	}
+	if strings.Contains(d.Opts, "T") {
+		args = append(args, "-text=false")
+	}
+	if len(d.Parsable) > 0 {
+		args = append(args, "-parsableByTraits", strings.Join(d.Parsable, ","))
+	}
 	return args
 }
 
@@ -218,6 +230,9 @@ func (w *world) tryBuild(defs []*Def) []*built {
 	if out, err := bld.CombinedOutput(); err != nil {
 		if os.Getenv("VERIF_DEBUG") != "" {
 			fmt.Fprintf(os.Stderr, "probe build failed in %s:\n%s\n", dir, out)
+			if keep := os.Getenv("VERIF_KEEP"); keep != "" {
+				exec.Command("cp", "-r", dir, filepath.Join(keep, filepath.Base(dir))).Run()
+			}
 		}
 		setAll("err:compile", string(out))
 		return res
@@ -320,7 +335,17 @@ func (w *world) get(d *Def) *built {
 // probeSource renders the probe `main`: it answers `<Type> <op> <arg>` queries on stdin.
 func probeSource(defs []*Def) string {
 	var b strings.Builder
-	b.WriteString(probeHeader)
+	hdr := probeHeader
+	for _, d := range defs {
+		for _, t := range d.Types {
+			for _, c := range t.Cols {
+				if c.Ty == "time.Duration" && !strings.Contains(hdr, "stupidTime") {
+					hdr = strings.Replace(hdr, "\t\"strings\"\n", "\t\"strings\"\n\tstupidTime \"time\"\n", 1)
+				}
+			}
+		}
+	}
+	b.WriteString(hdr)
 	b.WriteString("func tablesOK() bool {\n\tok := true\n")
 	for _, d := range defs {
 		for _, it := range d.Items {
@@ -335,7 +360,31 @@ func probeSource(defs []*Def) string {
 	for _, d := range defs {
 		for _, t := range d.Types {
 			bits, signed, _, _ := kindInfo(t.Kind)
-			fmt.Fprintf(&b, "\t%q: newProbe[%s](Parse%s, %v, %d),\n", t.Name, t.Name, t.Name, signed, bits)
+			fmt.Fprintf(&b, "\t%q: newProbe[%s](Parse%s, %v, %d, map[string]traitP{\n", t.Name, t.Name, t.Name, signed, bits)
+			first, hasFirst := d.firstConst(t.Name)
+			for j, c := range t.Cols {
+				if !hasFirst || j >= len(first.TVals) {
+					continue
+				}
+				gt := goTypeOf(c.Ty)
+				var get, mk string
+				switch {
+				case c.Ty == "string" || strings.HasPrefix(c.Ty, "Str"):
+					get = fmt.Sprintf("fmtS(string(v.(%s).%s()))", t.Name, c.Name)
+					mk = fmt.Sprintf("s, ok := scS(sc); return %s(s), ok", gt)
+				case c.Ty == "bool":
+					get = fmt.Sprintf("fmtB(v.(%s).%s())", t.Name, c.Name)
+					mk = "b, ok := scB(sc); return b, ok"
+				case c.Ty == "uint8" || c.Ty == "uint64" || strings.HasPrefix(c.Ty, "Un"):
+					get = fmt.Sprintf("\"i:\" + strconv.FormatUint(uint64(v.(%s).%s()), 10)", t.Name, c.Name)
+					mk = fmt.Sprintf("n, ok := scU(sc); x := %s(n); return x, ok && uint64(x) == n", gt)
+				default: // signed integer kinds, rune
+					get = fmt.Sprintf("\"i:\" + strconv.FormatInt(int64(v.(%s).%s()), 10)", t.Name, c.Name)
+					mk = fmt.Sprintf("n, ok := scI(sc); x := %s(n); return x, ok && int64(x) == n", gt)
+				}
+				fmt.Fprintf(&b, "\t\t%q: {get: func(v any) string { return %s }, mk: func(sc string) (any, bool) { %s }},\n", c.Name, get, mk)
+			}
+			b.WriteString("\t}),\n")
 		}
 	}
 	b.WriteString("}\n")
@@ -346,14 +395,86 @@ const probeHeader = `package main
 
 import (
 	"bufio"
+	"encoding"
 	"encoding/hex"
+	"encoding/json"
 	"fmt"
 	"os"
 	"strconv"
 	"strings"
 
 	"github.com/drshriveer/gtools/genum"
+	"gopkg.in/yaml.v3"
 )
+
+var _ = strconv.Itoa
+
+type traitP struct {
+	get func(v any) string
+	mk  func(sc string) (any, bool)
+}
+
+func fmtS(s string) string { return "s:" + hex.EncodeToString([]byte(s)) }
+
+func fmtB(b bool) string {
+	if b {
+		return "b:t"
+	}
+	return "b:f"
+}
+
+func scS(sc string) (string, bool) {
+	if !strings.HasPrefix(sc, "s:") {
+		return "", false
+	}
+	raw, err := hex.DecodeString(sc[2:])
+	return string(raw), err == nil
+}
+
+func scB(sc string) (bool, bool) { return sc == "b:t", sc == "b:t" || sc == "b:f" }
+
+func scI(sc string) (int64, bool) {
+	if !strings.HasPrefix(sc, "i:") {
+		return 0, false
+	}
+	n, err := strconv.ParseInt(sc[2:], 10, 64)
+	return n, err == nil
+}
+
+func scU(sc string) (uint64, bool) {
+	if !strings.HasPrefix(sc, "i:") {
+		return 0, false
+	}
+	n, err := strconv.ParseUint(sc[2:], 10, 64)
+	return n, err == nil
+}
+
+// docBytes: the document of a dec query for one codec.
+func docBytes(codec, doc string) ([]byte, bool) {
+	k, p, ok := strings.Cut(doc, ":")
+	if !ok {
+		return nil, false
+	}
+	switch k {
+	case "n":
+		return []byte(p), true
+	case "s", "o":
+		raw, err := hex.DecodeString(p)
+		if err != nil {
+			return nil, false
+		}
+		if k == "o" || codec == "text" {
+			return raw, true
+		}
+		if codec == "json" {
+			b, err := json.Marshal(string(raw))
+			return b, err == nil
+		}
+		b, err := yaml.Marshal(string(raw))
+		return b, err == nil
+	}
+	return nil, false
+}
 
 type enumI[T any] interface {
 	genum.EnumLike
@@ -366,7 +487,7 @@ type enumI[T any] interface {
 }
 
 type probe struct {
-	ask func(op, arg string) string
+	ask func(op string, args []string) string
 }
 
 func fmtI[T genum.EnumLike](v T, signed bool) string {
@@ -392,8 +513,54 @@ func join(xs []string) string {
 	return strings.Join(xs, ",")
 }
 
-func newProbe[T enumI[T]](parse func(any) (T, error), signed bool, bits int) *probe {
+func newProbe[T enumI[T]](parse func(any) (T, error), signed bool, bits int, traits map[string]traitP) *probe {
 	var zero T
+	encode := func(codec string, v T) ([]byte, error) {
+		switch codec {
+		case "json":
+			return json.Marshal(v)
+		case "yaml":
+			return yaml.Marshal(v)
+		}
+		m, ok := any(v).(encoding.TextMarshaler)
+		if !ok {
+			return nil, fmt.Errorf("no MarshalText")
+		}
+		return m.MarshalText()
+	}
+	decode := func(codec string, b []byte) (T, error) {
+		var e T
+		switch codec {
+		case "json":
+			err := json.Unmarshal(b, &e)
+			return e, err
+		case "yaml":
+			err := yaml.Unmarshal(b, &e)
+			return e, err
+		}
+		u, ok := any(&e).(encoding.TextUnmarshaler)
+		if !ok {
+			return e, fmt.Errorf("no UnmarshalText")
+		}
+		err := u.UnmarshalText(b)
+		return e, err
+	}
+	asString := func(codec string, b []byte) string {
+		var s string
+		switch codec {
+		case "json":
+			if json.Unmarshal(b, &s) != nil {
+				return "!not-a-string"
+			}
+		case "yaml":
+			if yaml.Unmarshal(b, &s) != nil {
+				return "!not-a-string"
+			}
+		default:
+			s = string(b)
+		}
+		return s
+	}
 	vals := func(arg string) ([]T, bool) {
 		if arg == "all" {
 			if bits > 8 {
@@ -427,8 +594,72 @@ func newProbe[T enumI[T]](parse func(any) (T, error), signed bool, bits int) *pr
 		}
 		return "ok:" + fmtI(v, signed)
 	}
-	return &probe{ask: func(op, arg string) string {
+	return &probe{ask: func(op string, args []string) string {
+		arg := ""
+		if len(args) > 0 {
+			arg = args[len(args)-1]
+		}
 		switch op {
+		case "trait":
+			if len(args) != 2 {
+				return "bad-op"
+			}
+			tp, ok := traits[args[0]]
+			if !ok {
+				return "no-trait"
+			}
+			vs, ok := vals(arg)
+			if !ok {
+				return "bad-op"
+			}
+			r := make([]string, len(vs))
+			for i, v := range vs {
+				r[i] = tp.get(v)
+			}
+			return join(r)
+		case "ptrait":
+			if len(args) != 2 {
+				return "bad-op"
+			}
+			tp, ok := traits[args[0]]
+			if !ok {
+				return "no-trait"
+			}
+			x, ok := tp.mk(arg)
+			if !ok {
+				return "bad-op"
+			}
+			return res(parse(x))
+		case "marshal", "rt":
+			if len(args) != 2 {
+				return "bad-op"
+			}
+			vs, ok := vals(arg)
+			if !ok {
+				return "bad-op"
+			}
+			r := make([]string, len(vs))
+			for i, v := range vs {
+				b, err := encode(args[0], v)
+				switch {
+				case err != nil:
+					r[i] = "!err"
+				case op == "marshal":
+					r[i] = asString(args[0], b)
+				default:
+					r[i] = res(decode(args[0], b))
+				}
+			}
+			return join(r)
+		case "dec":
+			if len(args) != 2 {
+				return "bad-op"
+			}
+			b, ok := docBytes(args[0], arg)
+			if !ok {
+				return "bad-op"
+			}
+			return res(decode(args[0], b))
 		case "values":
 			var r []string
 			for _, v := range zero.Values() {
@@ -504,11 +735,7 @@ func answer(line string) (out string) {
 	if !ok {
 		return "no-type"
 	}
-	arg := ""
-	if len(w) > 2 {
-		arg = w[2]
-	}
-	return p.ask(w[1], arg)
+	return p.ask(w[1], w[2:])
 }
 
 func main() {
